@@ -1,9 +1,9 @@
 import Adlt.Sort.Perm
-/-! C10, ordering part: under bounded buffering delay the output is sorted by (calculated time, index). -/
+/-! C10, ordering part: under bounded buffering delay the output is sorted by (calculated time, arrival number). -/
 namespace Srt
 
-/-- strict order on heap entries (calculated time, then index): Prop version of `keyLt` -/
-def klt (a b : Nat × SMsg) : Prop := a.1 < b.1 ∨ (a.1 = b.1 ∧ a.2.index < b.2.index)
+/-- strict order on heap entries (calculated time, then arrival number): Prop version of `keyLt` -/
+def klt (a b : Nat × SMsg) : Prop := a.1 < b.1 ∨ (a.1 = b.1 ∧ a.2.seq < b.2.seq)
 
 theorem keyLt_iff (a b : Nat × SMsg) : keyLt a b = true ↔ klt a b := by
   simp [keyLt, klt]
@@ -129,7 +129,7 @@ structure OInv (table : List (Nat × Nat)) (d R bound : Nat) (s : SSt) : Prop wh
   outB : ∀ e ∈ s.out, calcTime table e + d < R
   outHeap : ∀ e ∈ s.out, ∀ h ∈ s.heap, klt (calcTime table e, e) h
   outSorted : s.out.reverse.Pairwise (K table)
-  idx : ∀ h ∈ s.heap, h.2.index < bound
+  idx : ∀ h ∈ s.heap, h.2.seq < bound
 
 theorem newT_ge (w d : Nat) (s : SSt) (m : SMsg) (ct : Nat) (h : d ≤ s.T) : d ≤ (s.newT w d m ct).2 := by
   unfold SSt.newT
@@ -139,9 +139,9 @@ theorem newT_ge (w d : Nat) (s : SSt) (m : SMsg) (ct : Nat) (h : d ≤ s.T) : d 
   · exact h
 
 theorem step_inv (table : List (Nat × Nat)) (w d R bound : Nat) (s : SSt) (m : SMsg)
-    (hi : OInv table d R bound s) (hR : R ≤ m.recv) (hb : bound ≤ m.index)
+    (hi : OInv table d R bound s) (hR : R ≤ m.recv) (hb : bound ≤ m.seq)
     (hd : m.recv - calcTime table m ≤ d) :
-    OInv table d m.recv (m.index + 1) (s.step table w d m) := by
+    OInv table d m.recv (m.seq + 1) (s.step table w d m) := by
   have hct : s.calc table m = calcTime table m := calc_eq table s m hi.cache
   -- the state after insertion
   have hcm : calcTime table m ≤ m.recv := by
@@ -168,7 +168,7 @@ theorem step_inv (table : List (Nat × Nat)) (w d R bound : Nat) (s : SSt) (m : 
     rcases (mem_insertSorted _ _ _).mp hh with h1 | h1
     · subst h1; exact hout_m e he
     · exact hi.outHeap e he h h1
-  have hl_idx : ∀ h ∈ insertSorted (calcTime table m, m) s.heap, h.2.index < m.index + 1 := by
+  have hl_idx : ∀ h ∈ insertSorted (calcTime table m, m) s.heap, h.2.seq < m.seq + 1 := by
     intro h hh
     rcases (mem_insertSorted _ _ _).mp hh with h1 | h1
     · subst h1; exact Nat.lt_succ_self _
@@ -228,7 +228,7 @@ theorem step_inv (table : List (Nat × Nat)) (w d R bound : Nat) (s : SSt) (m : 
 /-- the hypothesis of the ordering part, threaded through the stream -/
 def InRange (table : List (Nat × Nat)) (d : Nat) : Nat → Nat → List SMsg → Prop
   | _, _, [] => True
-  | R, bound, m :: t => R ≤ m.recv ∧ bound ≤ m.index ∧ m.recv - calcTime table m ≤ d ∧ InRange table d m.recv (m.index + 1) t
+  | R, bound, m :: t => R ≤ m.recv ∧ bound ≤ m.seq ∧ m.recv - calcTime table m ≤ d ∧ InRange table d m.recv (m.seq + 1) t
 
 theorem steps_inv (table : List (Nat × Nat)) (w d : Nat) (ms : List SMsg) (R bound : Nat) (s : SSt)
     (hi : OInv table d R bound s) (hr : InRange table d R bound ms) :
@@ -237,21 +237,21 @@ theorem steps_inv (table : List (Nat × Nat)) (w d : Nat) (ms : List SMsg) (R bo
   | nil => exact ⟨R, bound, hi⟩
   | cons m t ih =>
     obtain ⟨h1, h2, h3, h4⟩ := hr
-    exact ih m.recv (m.index + 1) _ (step_inv table w d R bound s m hi h1 h2 h3) h4
+    exact ih m.recv (m.seq + 1) _ (step_inv table w d R bound s m hi h1 h2 h3) h4
 
 theorem inRange_of_spec (table : List (Nat × Nat)) (d : Nat) (m : SMsg) (t : List SMsg) (R bound : Nat)
-    (hR : R ≤ m.recv) (hb : bound ≤ m.index)
+    (hR : R ≤ m.recv) (hb : bound ≤ m.seq)
     (h : Spec.orderingInRange table d (m :: t) = true) : InRange table d R bound (m :: t) := by
   induction t generalizing m R bound with
   | nil =>
-    simp only [Spec.orderingInRange, Spec.recvMonotone, Spec.indexIncreasing, Spec.delayBounded, List.all_cons,
+    simp only [Spec.orderingInRange, Spec.recvMonotone, Spec.seqIncreasing, Spec.delayBounded, List.all_cons,
       List.all_nil, Bool.and_true, Bool.true_and, decide_eq_true_eq] at h
     exact ⟨hR, hb, h, trivial⟩
   | cons m2 t2 ih =>
-    simp only [Spec.orderingInRange, Spec.recvMonotone, Spec.indexIncreasing, Spec.delayBounded, List.all_cons,
+    simp only [Spec.orderingInRange, Spec.recvMonotone, Spec.seqIncreasing, Spec.delayBounded, List.all_cons,
       Bool.and_eq_true, decide_eq_true_eq] at h
     obtain ⟨⟨⟨h1, h2⟩, h3, h4⟩, h5, h6⟩ := h
-    refine ⟨hR, hb, h5, ih m2 m.recv (m.index + 1) h1 (by omega) ?_⟩
+    refine ⟨hR, hb, h5, ih m2 m.recv (m.seq + 1) h1 (by omega) ?_⟩
     simp only [Spec.orderingInRange, Spec.delayBounded, Bool.and_eq_true, List.all_cons, decide_eq_true_eq]
     exact ⟨⟨h2, h4⟩, h6⟩
 
